@@ -23,7 +23,48 @@ def scale_sub(dims):
     return {s_: s_ * mono(d) for s_, d in dims.items() if d != ONE}
 
 
-def check(name, paths, hyps, dims_in, dims_out, syms, sums=None, positive=()):
+SCALE_NATIVE = r"""
+import json, io, contextlib, importlib, warnings
+import numpy as np
+warnings.simplefilter('ignore')
+C = getattr(importlib.import_module(%(mod)r), %(cls)r)
+kw = %(kw)r; kws = %(kws)r; pos = %(pos)r; poss = %(poss)r; t = %(t)r; ts = %(ts)r; fac = %(fac)r
+def run(kw, pos, t):
+    try:
+        with contextlib.redirect_stdout(io.StringIO()):
+            s = C(**kw); r = s(np.array([pos], dtype=float), t)
+        return {n: float(r[n][0]) for n in r.dtype.names}
+    except Exception as e:
+        return {'raises': type(e).__name__}
+a = run(kw, pos, t); b = run(kws, poss, ts); bad = {}
+if ('raises' in a) != ('raises' in b): bad['outcome'] = [str(a)[:80], str(b)[:80]]
+elif 'raises' not in a:
+    for n, f in fac.items():
+        if not (a[n] == a[n]) and not (b[n] == b[n]): continue
+        if abs(b[n] - f * a[n]) > 1e-7 * max(abs(b[n]), abs(f * a[n]), 1e-300): bad[n] = [a[n], b[n], f]
+print(json.dumps({'reproduced': bool(bad), 'mismatch (original units, changed units, expected factor)': bad, 'request': [kw, pos, t], 'request_in_changed_units': [kws, poss, ts]}))
+"""
+
+
+def native_scale(target, kw_sym, pos_sym, t_sym, dims_in, dims_out, raw):
+    """replay script: the real solver at the counterexample and at the same request expressed in the changed units"""
+    from props.c20 import kw_at, pyv
+    mod, cls = target.split(':')
+    syms = set()
+    for v in list(kw_sym.values()) + [pos_sym, t_sym]:
+        for q in (v if isinstance(v, (list, tuple)) else [v]):
+            if isinstance(q, sp.Basic): syms |= q.free_symbols
+    pt = {s_: sp.sympify(raw.get(s_.name, 1)) for s_ in syms}
+    lam = {l_: sp.sympify(raw.get(l_.name, 2)) for l_ in (lM, lL, lT, lTh)}
+    pts = {s_: (v * mono(dims_in[s_]).subs(lam) if s_ in dims_in else v) for s_, v in pt.items()}
+    def at(v, P):
+        if isinstance(v, (list, tuple)): return [at(q, P) for q in v]
+        return float(alg.numeric(v, P, 20)) if isinstance(v, sp.Basic) and v.free_symbols else pyv(v)
+    fac = {n: float(mono(d).subs(lam)) for n, d in dims_out.items()}
+    return SCALE_NATIVE % dict(mod=mod, cls=cls, kw=kw_at(kw_sym, pt), kws=kw_at(kw_sym, pts), pos=at(pos_sym, pt), poss=at(pos_sym, pts), t=at(t_sym, pt), ts=at(t_sym, pts), fac=fac)
+
+
+def check(name, paths, hyps, dims_in, dims_out, syms, sums=None, positive=(), nat=None):
     out = []; sub = scale_sub(dims_in)
     for i, p in enumerate(paths):
         if p.outcome != 'return' or not isinstance(p.value, Solution): continue
@@ -38,6 +79,9 @@ def check(name, paths, hyps, dims_in, dims_out, syms, sums=None, positive=()):
                 for s_ in getattr(p.run, 'sums', []): v = v.subs(s_['symbol'], s_['term'])      # term-wise (linear in the sum)
             o = core.prove_zero('%s/path%d/%s' % (name, i, n), v.subs(sub, simultaneous=True) - mono(d) * v, h, goal_text='%s(scaled inputs) == %s * %s(inputs)' % (n, mono(d), n),
                                 extra_syms=set(syms) | {lM, lL, lT, lTh}, positive=positive)
+            if nat and o['status'] == 'refuted' and o.get('cex_raw'):
+                try: o['replay'] = native_scale(nat[0], nat[1], nat[2], nat[3], dims_in, dims_out, o['cex_raw'])
+                except Exception as e_: o['detail'] = 'no native replay: %s' % str(e_)[:100]
             o.pop('cex_raw', None); out.append(o)
         # path conditions are homogeneous: sign-preserving under the scaling
         def atoms_of(c):
@@ -55,6 +99,14 @@ def check(name, paths, hyps, dims_in, dims_out, syms, sums=None, positive=()):
             # homogeneous of some degree: es / e is a pure lambda monomial  <=>  d/d(each input) of (es/e) vanishes; use the degree found from the first term
             t0 = sp.Add.make_args(sp.expand(e))[0]; t0s = t0.subs(sub, simultaneous=True)
             o = core.prove_zero('%s/path%d/cond%d' % (name, i, j), es * t0 - e * t0s, list(hyps), goal_text='path condition %d is homogeneous under the change of units' % j, extra_syms=set(syms) | {lM, lL, lT, lTh}, positive=positive)
+            if nat and o['status'] == 'refuted':
+                # a request whose branch changes with the units: the condition holds in one system of units and fails in the other
+                try:
+                    rs = rel.subs(sub, simultaneous=True); allsy = set(syms) | {lM, lL, lT, lTh} | rel.free_symbols
+                    if not any(q.is_integer for q in allsy):
+                        pts_ = alg.sample_points(allsy, list(hyps) + [sp.Or(sp.And(rel, sp.Not(rs)), sp.And(sp.Not(rel), rs))], 1, seed=core.SEED, tries=3000)
+                        if pts_: o['replay'] = native_scale(nat[0], nat[1], nat[2], nat[3], dims_in, dims_out, {str(k_): str(v_) for k_, v_ in pts_[0].items()})
+                except Exception as e_: o['detail'] = 'no native replay: %s' % str(e_)[:100]
             o.pop('cex_raw', None); out.append(o)
     if not out: out.append(core.Obl(name + '/vacuous', 'error', 'engine', 0.0, detail='no returning path'))
     return out
@@ -68,7 +120,7 @@ def unit_hydro(key):
         if key == 'cog19':
             dims[sc.params['Gamma']] = (0, 2, -2, -1); outd['temperature'] = TEMP
         try:
-            res['obligations'] += check('C08/%s/%s' % (key, sc.case_name(case)), sc.paths(case), sc.all_hyps(case), dims, outd, sc.symbols())
+            res['obligations'] += check('C08/%s/%s' % (key, sc.case_name(case)), sc.paths(case), sc.all_hyps(case), dims, outd, sc.symbols(), nat=(sc.cls, sc.kwargs(case), sc.pos, sc.t))
         except Unsupported as u:
             res['obligations'].append(core.Obl('C08/%s/%s/extraction' % (key, sc.case_name(case)), 'open', 'extraction', 0.0, detail=str(u)[:150]))
     return res
@@ -85,7 +137,7 @@ def unit_burn(key):
         elif n in ('alpha_1', 'alpha_2'): dims[s_] = (0, 2, -1, 0)
     pos = [c.lhs - c.rhs for c in sc.poshyps if getattr(c, 'rel_op', '') == '>']
     try:
-        res['obligations'] = check('C08/%s' % key, sc.paths(case), sc.all_hyps(case), dims, {'burntime': TIME}, sc.symbols(), positive=pos)
+        res['obligations'] = check('C08/%s' % key, sc.paths(case), sc.all_hyps(case), dims, {'burntime': TIME}, sc.symbols(), positive=pos, nat=(sc.cls, sc.kwargs(case), sc.pos, sc.t))
     except Unsupported as u:
         res['obligations'].append(core.Obl('C08/%s/extraction' % key, 'open', 'extraction', 0.0, detail=str(u)[:150]))
     return res
@@ -158,7 +210,7 @@ def unit_heat(bc):
     dims = {H.x: LEN, H.t: TIME, H.kappa: (0, 2, -1, 0), H.TL: TEMP, H.TR: TEMP, H.L: LEN}
     # boundary operators alpha T + beta dT/dx = gamma: take alpha dimensionless, beta a length, gamma a temperature
     for s_, dd in ((H.a1, ONE), (H.a2, ONE), (H.b1, LEN), (H.b2, LEN), (H.g1, TEMP), (H.g2, TEMP)): dims[s_] = dd
-    res['obligations'] = check('C08/rod1d/%s' % bc, paths, hy, dims, {'temperature': TEMP}, set(dims), sums=True)
+    res['obligations'] = check('C08/rod1d/%s' % bc, paths, hy, dims, {'temperature': TEMP}, set(dims), sums=True, nat=(H.ROD, kw, H.x, H.t))
     return res
 
 
